@@ -19,6 +19,9 @@ def make_project(seed, nfiles, workdir, size=0.8):
     # values with white-space runs, tabs and line breaks inside list-valued attributes (arguments wrapped over
     # lines, spaced generic types): what a formatter that "tidies" values would touch
     files.append(('src/twins/Wrapped.java', b'class Wrapped {\n  void w(java.util.Map<String,  Integer> m,\tint  n) throws  Exception {\n    helper(1 +\n        2,\t"a  b",  m.get(  "k"  ));\n    new Wrapped(n\n      + 1);\n  }\n}\n'))
+    # near-miss values: the same text with one blank, two blanks and a tab; values ending in a backslash
+    files.append(('src/twins/Spaces.java', b'class Spaces {\n  String two = "p  q";\n  String one = "p q";\n  String tab = "p\tq";\n  String bs = "C:\\\\docs\\\\";\n'
+                  b'  /** @author John  Doe */\n  void alpha() { helper("a  b"); }\n  /** @author John Doe */\n  void beta() { helper("a b"); }\n}\n'))
     proj = workdir + '/proj'
     qrun.write_project(proj, files)
     return proj, files
